@@ -84,7 +84,7 @@ ret raise bind lift random randint randrange sample2 getI setI for_each qltb Qle
 py_range py_range3 py_slice py_slice_assign py_sub py_get py_set repeat zip zip3 py_enumerate py_type_call truthy
 is_sequence py_repeat py_len py_iter val_of_bound unmodelled Some None true false fst snd pair Z Q nat bool list option
 M A B S O I gene bound pyval draw outcome exn Ok Raise Mismatch IndexError ValueError GInt GBool GFloat VInt VSeq VRep
-BScalar BSeq mod tt unit""".split())
+BScalar BSeq mod tt unit where using SProp exists2 IF""".split())
 ELT_COQ = {"A": "A", "B": "B", "Z": "Z", "gene": "gene", "bool": "bool"}
 SCALARS = ("Z", "Q", "bool", "gene", "val", "A", "B")
 
